@@ -13,7 +13,10 @@ Readings adopted where the catalogue is terse (DESIGN §7 C18 "H"):
 * struct, union and exception are three kinds: the same name under another kind is a removal;
 * removing a whole enum is the documented warning; its uses surface as type changes;
 * a type is changed iff the two types differ after expanding all typedefs, the old type with
-  the old program's typedefs and the new one with the new program's, at any depth;
+  the old program's typedefs and the new one with the new program's, at any depth; a name
+  `inc.n` is expanded through the typedefs of the included file `inc` and only those (a local
+  declaration `n` is a different thing), names of structs/enums of an include stay `inc.n`;
+* the audited declarations are those of the file itself (an included file is audited on its own);
 * adding `extends` is compatible, changing or dropping it is breaking.
 -/
 import FV.Model.Idl
@@ -23,7 +26,7 @@ open FV.Idl
 
 /-- The written types `a` (old program) and `b` (new program) denote different types. -/
 def TypeChanged (old new : Prog) (a b : Ty) : Prop :=
-  resolve? old.typedefs old.fuel a ≠ resolve? new.typedefs new.fuel b
+  resolve? old.env old.fuel a ≠ resolve? new.env new.fuel b
 
 /-- Return types: `none` is `void`. -/
 def RetChanged (old new : Prog) : Option Ty → Option Ty → Prop
@@ -148,7 +151,7 @@ def MethodCompat (m m' : Method) : Prop :=
   ∧ (m.ret = none → m.excs = [] → m'.excs = [])
 
 def Compatible (p p' : Prog) : Prop :=
-  p'.typedefs = p.typedefs
+  p'.typedefs = p.typedefs ∧ p'.includes = p.includes
   ∧ (∀ s ∈ p.scopes, ∃ s' ∈ p'.scopes, s'.name = s.name ∧ prefixAgree s.pfx s'.pfx ∧
       ∀ o ∈ s.ops, ∃ o' ∈ s'.ops, o'.name = o.name ∧ o'.ty = o.ty)
   ∧ (∀ e ∈ p.enums, ∀ e' ∈ p'.enums, e'.name = e.name → ∀ v ∈ e.values, ∃ v' ∈ e'.values, v'.num = v.num)
